@@ -291,7 +291,7 @@ fn pid(steps: &[Value], c: &C) -> Bad {
     let mut twin = CommandPID::new(tin.getter.clone(), init_cmd, gains(&g, c.tau()));
     let mut twin_state = init_state;
     let mut twin_motor: Vec<f32> = vec![];
-    let mut now = 0i64;
+    let mut now = steps.first().and_then(|st| st["obs"]["start"].as_i64()).unwrap_or(0);
     for (idx, st) in steps.iter().enumerate() {
         let a = &st["a"];
         match s(a, "op") {
@@ -324,8 +324,10 @@ fn pid(steps: &[Value], c: &C) -> Bad {
             return Some((idx, "values handed to the motor vs a stand-alone CommandPID fed the same times, states and commands".into(), json!(twin_motor), json!(*m)));
         }
         // (2) and what the specification's controller predicts (exact domain); integrals scale with the tick length
+        // (once a round has shown the same data time twice the real controller works with a zero interval; the specification marks
+        // the behaviour poisoned and only the comparison with the real stand-alone controller above decides)
         let exp = st["obs"]["motor"].as_array().unwrap();
-        if exp.len() != m.len() {
+        if st["obs"]["poisoned"] != json!(true) && exp.len() != m.len() {
             return Some((idx, "number of values handed to the motor".into(), json!(exp.len()), json!(m.len())));
         }
     }
@@ -334,7 +336,7 @@ fn pid(steps: &[Value], c: &C) -> Bad {
     if let Some(last) = steps.last() {
         let exp = last["obs"]["motor"].as_array().unwrap();
         let m = got.borrow();
-        let only_position = steps.iter().all(|st| st["a"]["op"] != "cmd" && st["a"]["op"] != "both");
+        let only_position = steps.iter().all(|st| st["a"]["op"] != "cmd" && st["a"]["op"] != "both") && last["obs"]["poisoned"] != json!(true);
         if only_position {
             let mag = exp.iter().map(|e| rat(e).abs()).fold(0f64, f64::max) * 2f64.powi(c.scale_pow2);
             for (k, (e, g)) in exp.iter().zip(m.iter()).enumerate() {
